@@ -162,4 +162,17 @@ def litFieldsCanonB (ρ : String → String) : List (String × Lit) → Bool
   | (_, v) :: fs => litCanonB ρ v && litFieldsCanonB ρ fs
 end
 
+/-- the arguments / input fields of a schema whose default the printer writes -/
+def allArgs (s : SchemaD) : List ArgD :=
+  s.directives.flatMap (·.args) ++ s.types.flatMap (fun t => t.fields.flatMap (·.args) ++ t.inputFields)
+
+/-- decidable: `ρ` agrees with the printer on every printed default literal -/
+def litsCanonWF (ρ : String → String) (s : SchemaD) : Bool :=
+  (allArgs s).all fun a => !a.hasDefault ||
+    (match SdlPrint.valueLit s SdlPrint.valueFuel a.default a.type with | some l => litCanonB ρ l | none => true)
+
+/-- `ρ` given by a finite table (the driver receives Python's `repr(float(v))` for every numeral of the real text) -/
+def reprOfTable (tbl : List (String × String)) (v : String) : String :=
+  match tbl.find? (·.1 == v) with | some p => p.2 | none => ""
+
 end PyGql.SdlText
